@@ -46,7 +46,71 @@ def claim(mod, out):
 
 
 def executor_of(mod):
-    return lambda scn, rng=None: claim(mod, mod.execute(scn, rng))
+    def run(scn, rng=None):
+        if scn.get("kind") == "sequence":
+            # several simulations in one process, in order: the verdict is that of the last one (a run must be a
+            # function of its scenario alone; if it is not, the preceding runs are part of the schedule)
+            for step in scn["steps"][:-1]:
+                try:
+                    mod.execute(copy.deepcopy(step), None)
+                except Exception:  # noqa: BLE001 - only the state the earlier runs leave behind matters
+                    pass
+            return claim(mod, mod.execute(copy.deepcopy(scn["steps"][-1]), None))
+        return claim(mod, mod.execute(scn, rng))
+    return run
+
+
+_PROC_HISTORY = []      # (family, idx) of every run this worker process has executed, in order
+
+
+def with_history(mod, prop, seed, tier, v, rule, harness):
+    """A violation that a run shows only after other runs of the same process: rebuild that history (the scenarios are
+    functions of seed, family and index), find a short suffix of it after which the violating scenario fails again
+    IN A FRESH INTERPRETER (this process is no longer clean), and return a 'sequence' scenario.  None if no suffix does."""
+    hist = v.get("history") or []
+    scn = v["scenario"]
+    tmp = os.path.join(VERIF_DIR, "replays", prop, "candidate-%d.json" % os.getpid())
+
+    def fresh(seq):
+        jdump({"property": prop, "seed": seed, "family": v["family"], "index": v["idx"], "rule": rule,
+               "violation": v["violation"], "scenario": seq}, tmp)
+        try:
+            return confirm_replay(tmp)[0]
+        finally:
+            if os.path.exists(tmp):
+                os.remove(tmp)
+    built = {}
+
+    def step_of(fam, idx):
+        if (fam, idx) not in built:
+            try:
+                built[(fam, idx)] = one_run(mod, fam, seed, idx, tier)[0]
+            except Exception:  # noqa: BLE001
+                built[(fam, idx)] = None
+        return built[(fam, idx)]
+    for n in (1, 2, 4, 8, 16, 32, 64, 128, 300):
+        if n > len(hist) * 2 and n > 1:
+            break
+        steps = [s_ for s_ in (step_of(f, i) for f, i in hist[-n:]) if s_ is not None]
+        seq = {"kind": "sequence", "steps": steps + [scn], "_family": v["family"]}
+        if not fresh(seq):
+            continue
+        # drop what is not needed: halves first, then single steps (each candidate judged in a fresh interpreter)
+        tries = 0
+        size = (len(seq["steps"]) - 1) // 2
+        while size >= 1 and tries < 24:
+            k = 0
+            while k + size <= len(seq["steps"]) - 1 and tries < 24:
+                cand = dict(seq, steps=seq["steps"][:k] + seq["steps"][k + size:])
+                tries += 1
+                if fresh(cand):
+                    seq = cand
+                else:
+                    k += size
+            size //= 2
+        got = dict(v["violation"], detail=dict(v["violation"].get("detail") or {}, depends_on_preceding_runs=len(seq["steps"]) - 1))
+        return seq, got
+    return None
 
 
 def one_run(mod, family, seed, idx, tier):
@@ -65,6 +129,8 @@ def _work(args):
     signal.signal(signal.SIGALRM, _alarm)
     for idx in range(lo, hi):
         t0 = time.time()
+        hist = _PROC_HISTORY[-300:]
+        _PROC_HISTORY.append((family, idx))
         try:
             signal.alarm(RUN_ALARM_S)
             scn, out = one_run(mod, family, seed, idx, tier)
@@ -84,6 +150,7 @@ def _work(args):
         if v:
             rec["violation"] = v
             rec["scenario"] = scn
+            rec["history"] = hist
             rec["log_tail"] = out.get("log_tail")
         elif idx < lo + 1 and not out.get("discard"):
             rec["sample"] = mod.sample(scn, out) if hasattr(mod, "sample") else scn
@@ -176,7 +243,8 @@ def run_check(prop, tier):
                     fam["violations"] += 1
                     if mod.claims(rec["violation"]["rule"]):
                         violations.append({"idx": rec["idx"], "family": task[1], "violation": rec["violation"],
-                                           "scenario": rec["scenario"], "log_tail": rec.get("log_tail")})
+                                           "scenario": rec["scenario"], "log_tail": rec.get("log_tail"),
+                                           "history": rec.get("history")})
                     else:
                         agg.setdefault("other_property_rules", {})
                         r_ = rec["violation"]["rule"]
@@ -231,9 +299,12 @@ def run_check(prop, tier):
                             viol = again
                         # (else: the defect depends on process history; the fresh-interpreter replay below decides)
                     else:
-                        harness.append("in-process replay of %s/%d did not reproduce %s (got %s)" % (
-                            v["family"], v["idx"], rule, chk.get("violation")))
-                        continue
+                        hs = with_history(mod, prop, seed, tier, v, rule, harness)
+                        if hs is None:
+                            harness.append("in-process replay of %s/%d did not reproduce %s (got %s), nor did it after the "
+                                           "runs that preceded it in its worker" % (v["family"], v["idx"], rule, chk.get("violation")))
+                            continue
+                        scn, viol = hs
                 except Exception:  # noqa: BLE001
                     harness.append("replay/shrink: " + traceback.format_exc()[-1500:])
                     continue
@@ -244,6 +315,15 @@ def run_check(prop, tier):
                    "log_tail": v.get("log_tail")}, path)
             if scn is not None:
                 ok, msg = confirm_replay(path)
+                if not ok and scn.get("kind") != "sequence":
+                    # reproduced here but not in a fresh interpreter: this process's own earlier runs mattered
+                    hs = with_history(mod, prop, seed, tier, v, rule, harness)
+                    if hs is not None:
+                        scn, viol = hs
+                        jdump({"property": prop, "seed": seed, "family": v["family"], "index": v["idx"], "rule": rule,
+                               "violation": viol, "scenario": scn, "shrink_executions": used,
+                               "log_tail": v.get("log_tail")}, path)
+                        ok, msg = confirm_replay(path)
                 if not ok:
                     harness.append("fresh-interpreter replay of %s did not reproduce: %s" % (path, msg))
                     continue
